@@ -135,6 +135,24 @@ Json gen(uint64_t seed, const std::string &tier)
                 es.push(e2);
             }
         }
+        // nearly ordered lists: row-major (or column-major) order with one
+        // or two entries moved elsewhere - the shape a "the input is already
+        // sorted" shortcut meets
+        if (es.size() >= 3 && g.chance(1, 3)) {
+            bool colmajor = g.chance(1, 4);
+            std::stable_sort(es.a.begin(), es.a.end(), [&](const Json &x, const Json &y) {
+                int64_t xi = x[colmajor ? 1 : 0].as_int(), yi = y[colmajor ? 1 : 0].as_int();
+                int64_t xj = x[colmajor ? 0 : 1].as_int(), yj = y[colmajor ? 0 : 1].as_int();
+                return xi != yi ? xi < yi : xj < yj;
+            });
+            unsigned moves = 1 + (unsigned)g.below(2);
+            for (unsigned k = 0; k < moves; k++) {
+                size_t from = (size_t)g.below(es.size());
+                Json e = es[from];
+                es.a.erase(es.a.begin() + (long)from);
+                es.a.insert(es.a.begin() + (long)g.below(es.size() + 1), e);
+            }
+        }
         o["entries"] = es;
         return o;
     };
@@ -187,9 +205,12 @@ Json gen(uint64_t seed, const std::string &tier)
                 o["f"] = f[g.below(3)];
                 // make shapes agree most of the time
                 o["reshape"] = g.chance(3, 4);
+                // write into a result object that already holds an earlier result
+                o["reuse"] = g.chance(1, 3);
                 break;
             }
             case 7:
+                o["reuse"] = g.chance(1, 3);
                 o["op"] = "emul";
                 o["a"] = m;
                 o["b"] = (unsigned)g.below(npool);
@@ -454,6 +475,7 @@ void exec(Run &run)
         npool = NPOOL;
     const Json &ops = run.plan.at("ops");
     unsigned mutations = 0;
+    std::map<std::pair<unsigned, unsigned>, CSRMatrix> result_box; // earlier results, by shape
 
     auto ensure = [&](unsigned m) -> Pair & {
         Pair &p = pool[m % npool];
@@ -649,6 +671,15 @@ void exec(Run &run)
                 Pair res;
                 res.s = CSRMatrix(r, c);
                 res.d = DenseMatrix(r, c);
+                {
+                    // the output argument may be an object that already holds
+                    // an earlier (larger or smaller) result of the same shape
+                    auto it = result_box.find(std::make_pair(r, c));
+                    if (o.at("reuse").as_bool() && it != result_box.end()) {
+                        res.s = CSRMatrix(it->second);
+                        run.probe("result_object_reused");
+                    }
+                }
                 std::string f = op == "emul" ? "emul" : o.gets("f", "add");
                 if (op == "emul") {
                     a.s.elementwise_mul_matrix(b.s, res.s);
@@ -682,6 +713,10 @@ void exec(Run &run)
                 }
                 run.ev(f + " " + std::to_string(r) + "x" + std::to_string(c));
                 check_pair(run, res, "binop-" + f);
+                if (!run.failed()) {
+                    result_box.erase(std::make_pair(r, c));
+                    result_box.emplace(std::make_pair(r, c), CSRMatrix(res.s));
+                }
                 pool[o.geti("dst") % npool] = res;
                 tame(pool[o.geti("dst") % npool]);
                 mutations++;
